@@ -72,6 +72,31 @@ fn hostile_search(rng: &mut Rng) -> Vec<u8> {
   reqs[rng.usize(reqs.len())].to_string().into_bytes()
 }
 
+/// Requests whose error message has to echo long non-ASCII content (unknown field / type
+/// names, ids ...): error envelopes must survive any length and any UTF-8 alignment.
+fn long_unicode_error_body(rng: &mut Rng, path: &str) -> Vec<u8> {
+  let ch = *rng.pick(&["é", "日", "😀", "ß", "本"]);
+  let pad = "a".repeat(rng.usize(4));
+  let name = format!("{pad}{}", ch.repeat(rng.urange(120, 700)));
+  match path {
+    "/add" => format!("{}\n", json!({"_id": "u1", "body": "x", name.clone(): "y"})).into_bytes(),
+    "/bulk" => json!({"docs": [{"_id": "u1", "body": "x", name.clone(): 1}]}).to_string().into_bytes(),
+    "/delete" => json!({"ids": [format!("{name}\u{0007}")]}).to_string().into_bytes(),
+    "/init" => json!({"doc_id_field": name, "text_fields": [{"name": name, "analyzer": name, "stored": true, "indexed": true}], "keyword_fields": [], "numeric_fields": []}).to_string().into_bytes(),
+    _ => {
+      let reqs = [
+        json!({"query": {"type": "term", "field": name.clone(), "value": "x"}, "limit": 5, "return_stored": false, "sort": [{"field": name.clone()}]}),
+        json!({"query": {"type": name.clone()}, "limit": 5, "return_stored": false}),
+        json!({"query": {"type": "match_all"}, "limit": 5, "return_stored": false, "aggs": {"a": {"type": "terms", "field": name.clone()}}}),
+        json!({"query": {"type": "match_all"}, "limit": 5, "return_stored": false, "collapse": {"field": name.clone()}}),
+        json!({"query": {"type": "regex", "field": "body", "value": format!("({name}")}, "limit": 5, "return_stored": false}),
+        json!({"query": {"type": "script_score", "query": {"type": "match_all"}, "script": format!("{name} +")}, "limit": 5, "return_stored": false}),
+      ];
+      reqs[rng.usize(reqs.len())].to_string().into_bytes()
+    }
+  }
+}
+
 fn mutate(rng: &mut Rng, b: &[u8]) -> Vec<u8> {
   let mut v = b.to_vec();
   for _ in 0..rng.urange(1, 4) {
@@ -158,7 +183,7 @@ fn main() {
   let args: Vec<String> = std::env::args().skip(1).collect();
   let mut ctx = Ctx::from_args("C24", "exploration", &args);
   let quick = ctx.quick();
-  ctx.rule = "per server instance (started with --max-body-bytes 65536 --request-timeout-secs 5 on an empty directory): index routes before /init (expect 404), /init (200), second /init (409), then a stream of syntactically valid HTTP/1.1 requests: every method x known/unknown/percent-encoded paths x content types x bodies {valid for the route, byte-mutated, random bytes, non-UTF-8, truncated JSON, empty, oversized} x {Content-Length, chunked}, plus search requests that make the core return errors. Every response is judged (complete; 2xx => documented shape; non-2xx => JSON error envelope; status class); /healthz is probed after every 8th request and at the end. evaluations = responses judged; distinct_nontrivial = distinct (method, path class, body class, framing, status) combinations.".into();
+  ctx.rule = "per server instance (started with --max-body-bytes 65536 --request-timeout-secs 5 on an empty directory): index routes before /init (expect 404), /init (200), second /init (409), then a stream of syntactically valid HTTP/1.1 requests: every method x known/unknown/percent-encoded paths x content types x bodies {valid for the route, byte-mutated, random bytes, non-UTF-8, truncated JSON, empty, oversized, long non-ASCII names that error messages must echo} x {Content-Length, chunked}, plus search requests that make the core return errors. Every response is judged (complete; 2xx => documented shape; non-2xx => JSON error envelope; status class); /healthz is probed after every 8th request and at the end. evaluations = responses judged; distinct_nontrivial = distinct (method, path class, body class, framing, status) combinations.".into();
   ctx.assumptions = vec![
     "only syntactically valid HTTP/1.1 requests are judged against the JSON error contract (malformed HTTP is answered by hyper below the application)".into(),
     "responses to HEAD requests carry no body by HTTP semantics; only their status and the server's liveness are judged".into(),
@@ -282,6 +307,7 @@ fn main() {
           let filler = "x".repeat(MAX_BODY + 1 + rng.usize(2000));
           (json!({"docs": [{"_id": "big", "body": filler}], "ids": ["x"], "query": "x", "limit": 1, "return_stored": false}).to_string().into_bytes(), "oversized")
         }
+        87..=93 => (long_unicode_error_body(rng, clean), "long-unicode-error"),
         _ => (if clean == "/search" { hostile_search(rng) } else { valid_body(rng, clean) }, if clean == "/search" { "core-error" } else { "valid" }),
       };
       let ctype = if rng.chance(0.75) {
